@@ -1706,3 +1706,4 @@ def _run(ctx):
     fz.accept_implies_positive(ctx)
     fz.beta_divisions_guarded(ctx)
     fz.norm_divisions_guarded(ctx)
+    fz.noise_test_reference_global(ctx)
